@@ -127,7 +127,8 @@ def main(tier):
                 threads=[to_ops(h)])
             plan.append((prog, 0, dict(kinds=())))
     PT = dict(kinds=("P", "T"))
-    plan += [(racing(1, 2, 2, None), 1, PT), (racing(2, 2, 2, 0.05), 1, PT),
+    plan += [(PG.reusable_resize(2, 1, 0.05), 1, dict(kinds=("P",), zero_when="_resize", p_scope="worker")),
+             (racing(1, 2, 2, None), 1, PT), (racing(2, 2, 2, 0.05), 1, PT),
              (racing(2, 1, 3, None), 1, dict(kinds=("P",)))]
     if tier == "thorough":
         plan += [(racing(1, 2, 2, None), 2, dict(kinds=("P",))), (racing(2, 3, 2, 0.05), 1, dict(kinds=("P", "T", "K")))]
